@@ -238,7 +238,18 @@ fn wd_thread(p: u64) -> Wd {
     }
 }
 
+/// A hang verdict is only believed if it repeats: the second attempt uses a fresh child, three times the
+/// limit, and counts observed 250 ms polls instead of clock readings (a pause of the whole machine or a
+/// starved scheduler is then not mistaken for a non-terminating call).
 fn wd_call(p: u64) -> Wd {
+    match wd_call_once(p, WD_SECS * 4) {
+        Wd::Hang => wd_call_once(p, WD_SECS * 4 * 3),
+        r => r,
+    }
+}
+
+/// `limit_polls`: number of 250 ms polls without an answer after which the call counts as hanging
+fn wd_call_once(p: u64, limit_polls: u64) -> Wd {
     let mut g = SERVER.lock().unwrap();
     if g.is_none() {
         *g = spawn_server();
@@ -254,8 +265,9 @@ fn wd_call(p: u64) -> Wd {
         drop(g);
         return wd_thread(p);
     }
+    let mut polls = 0u64;
     loop {
-        match s.rx.recv_timeout(Duration::from_secs(WD_SECS)) {
+        match s.rx.recv_timeout(Duration::from_millis(250)) {
             Ok(line) => {
                 let mut it = line.splitn(4, ' ');
                 let (tag, q) = (it.next().unwrap_or(""), it.next().unwrap_or(""));
@@ -271,6 +283,10 @@ fn wd_call(p: u64) -> Wd {
                 }
             }
             Err(RecvTimeoutError::Timeout) => {
+                polls += 1;
+                if polls <= limit_polls {
+                    continue;
+                }
                 let _ = s.child.kill();
                 let _ = s.child.wait();
                 *g = None;
